@@ -3,7 +3,7 @@ from __future__ import annotations
 
 import ast
 import warnings
-from typing import List, Optional, Set
+from typing import Dict, List, Optional, Set, Tuple
 
 with warnings.catch_warnings():
     warnings.simplefilter("ignore")
@@ -12,24 +12,51 @@ with warnings.catch_warnings():
 
 from .. import cfg as C
 from .. import lib as L
-from ..core import AnalysisError, Repo, unparse
+from .. import strshape as S
+from ..core import AnalysisError, FuncInfo, Repo, unparse
 from ..prov import callee_name
 from ..report import Finding, RuleResult
+from . import _c19_util as U
 
 FF = "exporters.ff_output_parser"
+FF_STATUS = "MetricFFParser.get_solving_status"
+FF_WRITE = "MetricFFParser.parse_plan"
+EN_READ = "ENHSPParser.parse_plan_content"
+EN_WRITE = "ENHSPParser.parse_plan"
+MARKER_NAME = "VALID_PLAN_FOUND_PATTERN"
+MARKER_TEXT = "found legal plan"
+STEP_REGEX_NAME = "PLAN_COMPONENT_REGEX"
+RE_DOTALL, RE_MULTILINE = 16, 8
 
 EXPLANATION = (
-    "C19.regex: the regex AST (re._parser) of PLAN_COMPONENT_REGEX is inspected: the step prefix is a digit followed by ':', the "
-    "capture group is a repeat over a character class none of whose members can match a line break (no \\s, no negated class, no "
-    "'.' under DOTALL), and the group is followed by a line terminator, so a step cannot extend over the end of its line. "
-    "C19.lower: each emitted step derives from group(1) through lower() and strip(), in match order (finditer, no sort). C19.status: "
-    "'ok' is returned only under the found-plan marker and every other return carries an empty list. C19.enhsp: one output line "
-    "per input line, lower-cased, order kept."
+    "All clauses are decided on the PUBLIC functions (MetricFFParser.get_solving_status / parse_plan, ENHSPParser.parse_plan_content / "
+    "parse_plan) with every helper of the class / module inlined (private or not), values followed through local aliases, conditional "
+    "expressions, tuple assignments and module / class constants, and branches decided by valuation of the guard 'the found-plan marker "
+    "is in the log' (re.search of the marker compared with None or used as truth value, marker in text, text.find(marker) compared "
+    "with -1, directly or through a compiled pattern / boolean local / helper); reaching definitions are recomputed on the part of "
+    "the CFG that the valuation allows. "
+    "C19.regex: the step pattern is the one that reaches the finditer / findall call (re.<fn>(pattern, ...) or a compiled pattern; "
+    "literal, module or class constant) whose matches become the returned steps; its regex AST (re._parser) is inspected: the step "
+    "prefix is a digit followed by ':', the capture group is a repeat over a character class none of whose members can match a line "
+    "break (no \\s, no negated class, no '.' under DOTALL -- flags are taken from the call, the compile call and the pattern itself), "
+    "and the group is followed by a line terminator ('$' only counts under MULTILINE), so a step cannot extend over the end of its "
+    "line. C19.lower: the list returned with status 'ok' is built by exactly one unconditional repetition over the matches in match "
+    "order (loop + append / += / extend, comprehension; string-shape evaluation; no filter, break, continue, sorted / reversed / set, "
+    "slice), every element has the shape '(' step ')\\n' (f-string, +, format, %, join) and step is group(1) of the match (the element "
+    "itself for findall with one group) with lower() and strip() applied and nothing else; the scanned text is the log the function "
+    "was given (no piece of a split text; a slice bound that comes from str.find must be unreachable when find returned -1); what "
+    "parse_plan writes (writelines / write in a loop / write(''.join())) is that same list, to a freshly opened file at the output "
+    "path. C19.status: with the marker present every return is ('ok', <computed actions>), with the marker absent every return "
+    "carries 'no-solution' or 'timeout' and an empty list. C19.enhsp: one output line per line of the input file (opened on the path "
+    "parameter in text mode; readlines() or iteration), lower-cased and otherwise untouched, no filter, order kept; parse_plan writes "
+    "that list back. C19.cache: no memoising decorator (resolved through import aliases) and no hand-written memo dict at module / "
+    "class level on a function that reads external state or receives mutable objects."
 )
 UNDECIDED = "that a real planner's log contains nothing else that matches the step pattern (log layout is an assumption)"
 
 
-def _can_match_newline(items) -> List[str]:
+# ------------------------------------------------------------------------------------------------------------ regex AST
+def _can_match_newline(items, dotall: bool = False) -> List[str]:
     """reasons why some item of the (sub)pattern can match '\\n' or '\\r'"""
     out = []
     for op, av in items:
@@ -38,7 +65,8 @@ def _can_match_newline(items) -> List[str]:
         elif op == sre_c.NOT_LITERAL:
             out.append(f"negated literal [^{chr(av)}]")
         elif op == sre_c.ANY:
-            pass  # '.' does not match \n without DOTALL (flags checked separately)
+            if dotall:
+                out.append("'.' with DOTALL")   # '.' does not match \n without DOTALL
         elif op == sre_c.CATEGORY:
             if av in (sre_c.CATEGORY_SPACE, sre_c.CATEGORY_NOT_DIGIT, sre_c.CATEGORY_NOT_WORD):
                 out.append(f"category {str(av).lower()}")
@@ -58,199 +86,866 @@ def _can_match_newline(items) -> List[str]:
                     elif o == sre_c.RANGE and a[0] <= 10 <= a[1]:
                         out.append("range containing the line break")
         elif op in (sre_c.MAX_REPEAT, sre_c.MIN_REPEAT, sre_c.POSSESSIVE_REPEAT):
-            out += _can_match_newline(list(av[2]))
+            out += _can_match_newline(list(av[2]), dotall)
         elif op == sre_c.SUBPATTERN:
-            out += _can_match_newline(list(av[3]))
+            out += _can_match_newline(list(av[3]), dotall)
+        elif op == sre_c.ATOMIC_GROUP:
+            out += _can_match_newline(list(av), dotall)
         elif op == sre_c.BRANCH:
             for alt in av[1]:
-                out += _can_match_newline(list(alt))
+                out += _can_match_newline(list(alt), dotall)
     return out
 
 
+def _is_digit_item(op, av) -> bool:
+    if op == sre_c.IN:
+        return any((o == sre_c.CATEGORY and a == sre_c.CATEGORY_DIGIT) or (o == sre_c.RANGE and a == (48, 57)) for o, a in av)
+    if op in (sre_c.MAX_REPEAT, sre_c.MIN_REPEAT, sre_c.POSSESSIVE_REPEAT):
+        return any(_is_digit_item(o, a) for o, a in av[2])
+    return False
+
+
+def _terminates(items, multiline: Optional[bool]) -> Optional[bool]:
+    """some item after the group ends the line: a line-break literal, '$' under MULTILINE, or a look-ahead for one of them.
+    None: it depends on flags that could not be decided"""
+    unknown = False
+    for op, av in items:
+        if op == sre_c.LITERAL and av == 10:
+            return True
+        if op == sre_c.AT and av == sre_c.AT_END_LINE:
+            return True
+        if op == sre_c.AT and av == sre_c.AT_END:
+            if multiline:
+                return True
+            if multiline is None:
+                unknown = True
+        if op == sre_c.ASSERT and av[0] == 1:
+            t = _terminates(list(av[1]), multiline)
+            if t:
+                return True
+            unknown = unknown or t is None
+        if op == sre_c.BRANCH:
+            ts = [_terminates(list(alt), multiline) for alt in av[1]]
+            if ts and all(ts):
+                return True
+            unknown = unknown or (ts and all(t is None or t for t in ts))
+        if op == sre_c.SUBPATTERN:
+            t = _terminates(list(av[3]), multiline)
+            if t:
+                return True
+            unknown = unknown or t is None
+    return None if unknown else False
+
+
+def _parse(pat: str):
+    with warnings.catch_warnings():
+        warnings.simplefilter("ignore")
+        try:
+            return sre_parse.parse(pat)
+        except Exception as ex:   # re.error
+            raise AnalysisError(f"step pattern {pat!r} is not a valid regular expression ({ex})")
+
+
+def _group_count(pat: str) -> int:
+    return _parse(pat).state.groups - 1
+
+
+# ------------------------------------------------------------------------------------------------------------ shared model
+class _Steps:
+    """result of interpreting one list-of-steps value"""
+
+    def __init__(self):
+        self.valid = False
+        self.problems: List[str] = []      # the element / repetition differs from what is demanded  (role step-text / per-line)
+        self.shape_problem = False         # the list is not one repetition over the matches at all   (role result)
+        self.scans: List[U.Scan] = []
+        self.rendered: Optional[str] = None
+        self.node: Optional[ast.AST] = None
+
+
+def _fmt_ops(ops) -> str:
+    return "".join(f".{n}({', '.join(map(str, a))})" if n not in ("item", "slice") else (f"[{a[0]}]" if n == "item" else "[:]") for n, a, _ in ops) or "<unchanged>"
+
+
+def _escapes(loop_node: Optional[ast.AST]) -> Optional[str]:
+    """a statement in the body of the for loop that leaves it or skips the rest of an iteration (break / continue / return / raise,
+    also the return of an inlined helper that jumps out of the loop)"""
+    if not isinstance(loop_node, ast.For):
+        return None
+    inner_labels = {getattr(s, "label", None) for s in C.stmts_in(loop_node.body) if getattr(s, "_inline_block", False)}
+    for s in C.stmts_in(loop_node.body):
+        if isinstance(s, (ast.Break, ast.Continue, ast.Return, ast.Raise)):
+            return type(s).__name__.lower()
+        if getattr(s, "_inline_jump", False) and getattr(s, "label", None) not in inner_labels:
+            return "return"
+    return None
+
+
+class _Model:
+    """one public anchor: flattened function, guards on the found-plan marker, views per valuation"""
+
+    def __init__(self, repo: Repo, spec: str, with_marker: bool):
+        self.repo = repo
+        self.f = U.anchor(repo, spec)
+        self.p = L.prov(repo, self.f)
+        self._log_leaves: Optional[Set[int]] = None
+        self._plain = U.View(repo, self.f, L.Guards(self.f, lambda e: None), {})
+        self.G = L.Guards(self.f, self._marker_atom if with_marker else (lambda e: None))
+        self._views: Dict[Tuple, U.View] = {}
+
+    def view(self, **valuation) -> U.View:
+        if valuation.get("found"):
+            valuation = dict(valuation, nonempty=True)      # a log that contains the marker is not empty
+        k = tuple(sorted(valuation.items()))
+        if k not in self._views:
+            self._views[k] = U.View(self.repo, self.f, self.G, valuation)
+        return self._views[k]
+
+    # -------------------------------------------------------------- the found-plan marker
+    def _is_marker_text(self, e: ast.AST, mod: Optional[str] = None) -> bool:
+        ss = self._plain.strings(e, mod)
+        return bool(ss) and all((t is not None and MARKER_TEXT in t) or MARKER_NAME in leaf.via for t, leaf in ss)
+
+    def _is_marker_search(self, e: ast.AST) -> bool:
+        """the value is the match object (or None) of searching the marker anywhere in a text"""
+        cs = self._plain.chains(e, stop=lambda n, m_: U.scan_of(self._plain, n, m_) is not None)
+        if not cs:
+            return False
+        for ops, base in cs:
+            if ops:
+                return False
+            sc = U.scan_of(self._plain, base.node, base.mod)
+            if sc is None or sc.fn != "search" or sc.pattern is None or sc.extra_positional or not self._is_marker_text(sc.pattern, sc.pattern_mod):
+                return False
+        return True
+
+    def _is_log_text(self, e: ast.AST) -> bool:
+        """the expression is (an alias of) the text in which the marker is searched"""
+        if self._log_leaves is None:
+            self._log_leaves = set()
+            for c in L.calls_in(self.f.node):
+                sc = U.scan_of(self._plain, c)
+                if sc is not None and sc.fn == "search" and sc.text is not None and sc.pattern is not None and self._is_marker_text(sc.pattern, sc.pattern_mod):
+                    self._log_leaves |= {id(leaf.node) for leaf in self._plain.alts(sc.text) if leaf.mod is None}
+        if not self._log_leaves:
+            return False
+        leaves = self._plain.alts(e)
+        return bool(leaves) and all(id(leaf.node) in self._log_leaves for leaf in leaves)
+
+    def _marker_atom(self, e: ast.AST) -> Optional[str]:
+        """'found': the marker is in the log;  'nonempty': the log text is not empty (implied by 'found')"""
+        if isinstance(e, ast.Name) and isinstance(e.ctx, ast.Load) and self._is_log_text(e):
+            return "nonempty"        # truth value of the text
+        if isinstance(e, ast.Compare) and len(e.ops) == 1:
+            l, r_, op = e.left, e.comparators[0], e.ops[0]
+            if isinstance(l, ast.Call) and isinstance(l.func, ast.Name) and l.func.id == "len" and len(l.args) == 1 and self._is_log_text(l.args[0]):
+                c0 = U.const_int(r_)
+                t0 = type(op)
+                if (t0, c0) in ((ast.Eq, 0), (ast.Lt, 1), (ast.LtE, 0)):
+                    return "!nonempty"
+                if (t0, c0) in ((ast.NotEq, 0), (ast.Gt, 0), (ast.GtE, 1)):
+                    return "nonempty"
+                return None
+            if isinstance(r_, ast.Constant) and r_.value == "" and isinstance(op, (ast.Eq, ast.NotEq)) and self._is_log_text(l):
+                return "!nonempty" if isinstance(op, ast.Eq) else "nonempty"
+            if isinstance(r_, ast.Constant) and r_.value is None and isinstance(op, (ast.Is, ast.IsNot, ast.Eq, ast.NotEq)):
+                if isinstance(l, (ast.Name, ast.Call, ast.NamedExpr)) and self._is_marker_search(l):
+                    return "found" if isinstance(op, (ast.IsNot, ast.NotEq)) else "!found"
+                return None
+            if isinstance(op, (ast.In, ast.NotIn)) and not isinstance(r_, (ast.List, ast.Tuple, ast.Set, ast.Dict)) and self._is_marker_text(l):
+                return "found" if isinstance(op, ast.In) else "!found"
+            c, x, flip = U.const_int(r_), l, False
+            if c is None:
+                c, x, flip = U.const_int(l), r_, True
+            if c is not None and not isinstance(x, ast.Constant):
+                leaves = self._plain.alts(x)
+                verdicts = set()
+                for leaf in leaves:
+                    b = leaf.node
+                    if not (leaf.mod is None and isinstance(b, ast.Call) and isinstance(b.func, ast.Attribute) and b.func.attr in ("find", "rfind", "count")
+                            and len(b.args) == 1 and not b.keywords and self._is_marker_text(b.args[0])):
+                        return None
+                    t = type(op)
+                    if flip:
+                        t = {ast.Lt: ast.Gt, ast.Gt: ast.Lt, ast.LtE: ast.GtE, ast.GtE: ast.LtE}.get(t, t)
+                    cnt = b.func.attr == "count"
+                    pos = ((ast.Gt, 0), (ast.GtE, 1), (ast.NotEq, 0)) if cnt else ((ast.GtE, 0), (ast.Gt, -1), (ast.NotEq, -1))
+                    neg = ((ast.Eq, 0), (ast.Lt, 1), (ast.LtE, 0)) if cnt else ((ast.Lt, 0), (ast.LtE, -1), (ast.Eq, -1))
+                    verdicts.add("found" if (t, c) in pos else "!found" if (t, c) in neg else None)
+                return verdicts.pop() if len(verdicts) == 1 else None
+            return None
+        if isinstance(e, ast.Call) and self._is_marker_search(e):
+            return "found"       # truth value of the match object
+        return None
+
+    # -------------------------------------------------------------- interpretation of a list of steps
+    def steps(self, v: U.View, seq: S.Seq, kind: str, node: ast.AST) -> _Steps:
+        out = _Steps()
+        out.node = node
+        if seq.ordered:
+            out.problems.append(f"the steps are passed through {seq.ordered}() -- match order is lost")
+        if len(seq.items) != 1 or not isinstance(seq.items[0], S.RepItems):
+            out.shape_problem = True
+            out.problems.append("the list is not built by one repetition over the matches (" + ", ".join(S.render_seq(seq, lambda n: unparse(n, 30)))[:120] + ")")
+            for it in seq.items:
+                if isinstance(it, S.RepItems):
+                    self._source(v, it.loop, kind, out, quiet=True)
+            return out
+        rep = seq.items[0]
+        if len(rep.items) != 1 or not isinstance(rep.items[0], S.Shape):
+            out.problems.append("one match does not yield exactly one step")
+            self._source(v, rep.loop, kind, out, quiet=True)
+            return out
+        loop = rep.loop
+        if loop.conds or getattr(loop, "guards", None):
+            out.problems.append("a step is emitted only under a condition -- not every match / line yields a step")
+        esc = _escapes(loop.node)
+        if esc:
+            out.problems.append(f"the repetition is left / an iteration is skipped by `{esc}` -- not every match / line yields a step")
+        target, source_ok, fn, groups = self._source(v, loop, kind, out)
+
+        def hole(n: ast.AST) -> str:
+            names = set()
+            for ops, base in v.chains(n):
+                if not v.bound_by(base.node, loop, target):
+                    names.add("?" + unparse(base.node, 30) + _fmt_ops(ops))
+                    continue
+                ops = list(ops)
+                if kind == "ff":
+                    if fn == "finditer":
+                        if ops[:1] and ops[0][0] in ("group", "item") and ops[0][1] == (1,):
+                            ops = ops[1:]
+                        elif len(ops) >= 2 and ops[0][0] == "groups" and ops[0][1] == () and ops[1][0] == "item" and ops[1][1] == (0,) and groups == 1:
+                            ops = ops[2:]
+                        else:
+                            names.add("?match" + _fmt_ops(ops))
+                            continue
+                    elif not (fn == "findall" and groups == 1):
+                        names.add("?" + str(fn) + "-element" + _fmt_ops(ops))
+                        continue
+                    kinds = [o[0] for o in ops]
+                    if all(o[0] in ("lower", "strip") and o[1] == () for o in ops) and "lower" in kinds and "strip" in kinds:
+                        names.add("step")
+                    else:
+                        names.add("?group(1)" + _fmt_ops(ops))
+                else:
+                    if ops and all(o[0] == "lower" and o[1] == () for o in ops):
+                        names.add("line")
+                    else:
+                        names.add("?line" + _fmt_ops(ops))
+            return sorted(names)[0] if len(names) == 1 else "?" + "|".join(sorted(names))
+
+        got = S.render(rep.items[0], hole)
+        out.rendered = got
+        want = "({step})\n" if kind == "ff" else "{line}"
+        if got != want:
+            out.problems.append(f"an emitted element is {got!r}; demanded is {want!r} with " +
+                                ("step = group(1).lower().strip()" if kind == "ff" else "line = <input line>.lower()"))
+        out.valid = not out.problems and source_ok
+        return out
+
+    def _source(self, v: U.View, loop: S.Loop, kind: str, out: _Steps, quiet: bool = False):
+        """what the repetition runs over.  -> (element variable, ok, regex function, capture groups of the pattern)"""
+        target, it, _enum = v.loop_var(loop)
+        ok, fn, groups = True, None, None
+        cs = v.chains(it, stop=(lambda n, m_: U.scan_of(v, n, m_) is not None) if kind == "ff" else None)
+        for ops, base in cs:
+            if kind == "ff":
+                sc = U.scan_of(v, base.node, base.mod)
+                if sc is None or sc.fn not in ("finditer", "findall"):
+                    ok = False
+                    if not quiet:
+                        out.shape_problem = True
+                        out.problems.append(f"the repetition runs over {unparse(base.node, 50)}{_fmt_ops(ops)}, not over the matches of the step pattern")
+                    continue
+                out.scans.append(sc)
+                fn = sc.fn if fn in (None, sc.fn) else "mixed"
+                for t, _leaf in v.strings(sc.pattern, sc.pattern_mod) if sc.pattern is not None else []:
+                    if t is not None:
+                        gc = _group_count(t)
+                        groups = gc if groups in (None, gc) else -1
+                if ops:
+                    ok = False
+                    if not quiet:
+                        out.problems.append(f"the matches are passed through {_fmt_ops(ops)} before the steps are built -- match order / completeness is lost")
+            else:
+                if not self._is_input_file(v, base, ops):
+                    ok = False
+                    if not quiet:
+                        out.shape_problem = True
+                        out.problems.append(f"the repetition runs over {unparse(base.node, 50)}{_fmt_ops(ops)}, not over the lines of the input file")
+        if not cs:
+            ok = False
+        return target, ok, fn, groups
+
+    def _is_input_file(self, v: U.View, base: U.Leaf, ops) -> bool:
+        """the iterated value is <file opened on the path parameter for reading text>.readlines() or that file object itself;
+        the file is `open(path[, 'r' | 'rt'])` / `Path(path).open(...)`, bound by `with ... as`, a plain assignment or used directly"""
+        n = base.node
+        chains: List[Tuple[list, U.Leaf]] = []
+        if isinstance(n, ast.Name) and base.mod is None:
+            at = v.node_of(n)
+            ds = v.defs_reaching(at, n.id) if at is not None else set()
+            if not ds or not all(isinstance(v.g.stmt[d], ast.With) for d in ds):
+                return False
+            for d in ds:
+                for item in v.g.stmt[d].items:
+                    if item.optional_vars is not None and n.id in C.target_names(item.optional_vars):
+                        chains += [(list(o2) + list(ops), b2) for o2, b2 in v.chains(item.context_expr)]
+        else:
+            chains.append((list(ops), base))
+        params = [x for x in self.f.params if x != self.f.self_name]
+        if not chains or not params:
+            return False
+        for ops_, b in chains:
+            c = b.node
+            if isinstance(c, ast.Call) and isinstance(c.func, ast.Name) and c.func.id == "open" and b.mod is None and not v._local(c.func):
+                opener, path, rest = c, (c.args[0] if c.args else next((k.value for k in c.keywords if k.arg == "file"), None)), ops_
+                mode = c.args[1] if len(c.args) > 1 else next((k.value for k in c.keywords if k.arg == "mode"), None)
+                extra = len(c.args) > 2 or any(k.arg not in ("file", "mode") for k in c.keywords)
+            elif ops_ and ops_[0][0] == "open":
+                opener, path, rest = ops_[0][2], c, ops_[1:]
+                mode = opener.args[0] if opener.args else next((k.value for k in opener.keywords if k.arg == "mode"), None)
+                extra = len(opener.args) > 1 or any(k.arg != "mode" for k in opener.keywords)
+            else:
+                return False
+            if path is None or extra or [o[0] for o in rest] not in ([], ["readlines"]) or any(o[1] != () for o in rest):
+                return False      # another file, other decoding / newline handling, or something else than the lines is iterated
+            if mode is not None:
+                ms = v.strings(mode)
+                if not ms or any(t not in ("r", "rt", "tr") for t, _ in ms):
+                    return False
+            try:
+                tr = self.p.trace(path)
+            except KeyError:
+                return False
+            tr = {x for x in tr if x not in (("ext:Path",), ("ext:PurePath",), ("builtin:str",))}   # the constructor itself
+            if not tr or not all(x[0] == f"param:{params[0]}" and all(st.startswith(("arg0:Path", "arg0:str", "arg0:fspath")) for st in x[1:]) for x in tr):
+                return False
+        return True
+
+
+def _model(repo: Repo, spec: str, with_marker: bool = False) -> _Model:
+    cache = repo.__dict__.setdefault("_c19_models", {})
+    if spec not in cache:
+        cache[spec] = _Model(repo, spec, with_marker)
+    return cache[spec]
+
+
+class _MarkerTestChanged(Exception):
+    def __init__(self, node, what):
+        self.node, self.what = node, what
+
+
+def _ff(repo: Repo) -> _Model:
+    m = _model(repo, FF_STATUS, True)
+    if "found" not in m.G.atoms_seen:
+        # is the marker looked for in a way that is NOT 'anywhere in the log'?
+        for c in L.calls_in(m.f.node):
+            sc = U.scan_of(m._plain, c)
+            if sc is not None and sc.fn in ("match", "fullmatch") and sc.pattern is not None and m._is_marker_text(sc.pattern, sc.pattern_mod):
+                raise _MarkerTestChanged(c, f"re.{sc.fn} only finds the marker at the very start of the log")
+            if sc is not None and sc.fn == "search" and sc.extra_positional and sc.pattern is not None and m._is_marker_text(sc.pattern, sc.pattern_mod):
+                raise _MarkerTestChanged(c, "the marker is searched in a part of the log only")
+            if isinstance(c.func, ast.Attribute) and c.func.attr in ("startswith", "endswith") and len(c.args) == 1 and m._is_marker_text(c.args[0]):
+                raise _MarkerTestChanged(c, f"str.{c.func.attr} only finds the marker at one end of the log")
+        raise AnalysisError("get_solving_status: found-plan test not recognised (no test of a search for the "
+                            f"'{MARKER_TEXT}' marker / {MARKER_NAME} in the log decides the status)")
+    return m
+
+
+def _result_pairs(v: U.View) -> List[Tuple[ast.Return, Optional[ast.AST], Optional[ast.AST]]]:
+    """(return statement, status expression, action-list expression) for every way the function returns under the valuation"""
+    out = []
+    for ret in v.returns():
+        if ret.value is None:
+            out.append((ret, None, None))
+            continue
+        for leaf in v.alts(ret.value):
+            n = leaf.node
+            if isinstance(n, ast.Tuple) and len(n.elts) == 2 and leaf.mod is None:
+                out.append((ret, n.elts[0], n.elts[1]))
+            else:
+                out.append((ret, None, None))
+    return out
+
+
+def _ff_steps(repo: Repo) -> Tuple[_Model, U.View, List[Tuple[str, object, ast.AST]], List[_Steps]]:
+    """the action lists returned by get_solving_status when the marker is present, interpreted"""
+    cache = repo.__dict__.setdefault("_c19_ffsteps", {})
+    if "x" not in cache:
+        try:
+            m = _ff(repo)
+            v = m.view(found=True)
+        except _MarkerTestChanged:      # reported by C19.status; the steps are judged over all paths
+            m = _model(repo, FF_STATUS, True)
+            v = m.view()
+        lists: List[Tuple[str, object, ast.AST]] = []
+        for ret, _st, acts in _result_pairs(v):
+            if acts is None:
+                lists.append(("opaque", "the function does not return a (status, actions) pair", ret))
+            else:
+                lists += v.lists(acts)
+        interp = [m.steps(v, sq, "ff", n) for k, sq, n in lists if k == "seq"]
+        cache["x"] = (m, v, lists, interp)
+    return cache["x"]
+
+
+def _all_scans(m: _Model, v: U.View, interp: List[_Steps]) -> List[U.Scan]:
+    scans = [sc for st in interp for sc in st.scans]
+    if not scans:       # the list could not be interpreted: every finditer / findall reachable with the marker present
+        for c in L.calls_in(m.f.node):
+            sc = U.scan_of(v, c)
+            if sc is not None and sc.fn in ("finditer", "findall") and v.reachable(c):
+                scans.append(sc)
+    seen: Set[int] = set()
+    return [sc for sc in scans if not (id(sc.call) in seen or seen.add(id(sc.call)))]
+
+
+# ------------------------------------------------------------------------------------------------------------ C19.regex
 def rule_regex(repo: Repo) -> RuleResult:
     r = RuleResult("C19.regex", "a plan step is '<digit>: <text up to the end of that line>'; nothing inside the capture group can match a line break",
                    "exactly the plan's steps, independent of the surrounding log text")
-    m = repo.module(FF)
-    ok, pat = repo.const_value(m.name, "PLAN_COMPONENT_REGEX")
-    if not ok or not isinstance(pat, str):
-        raise AnalysisError("ff_output_parser.PLAN_COMPONENT_REGEX cannot be folded to a string")
-    owner = (m.short, "PLAN_COMPONENT_REGEX", str(m.path))
-    with warnings.catch_warnings():
-        warnings.simplefilter("ignore")
-        tree = sre_parse.parse(pat)
-    items = list(tree)
-    r.site(f"{FF}.PLAN_COMPONENT_REGEX [prefix]")
-    pre = []
-    gi = None
-    for i, (op, av) in enumerate(items):
-        if op == sre_c.SUBPATTERN and av[0] == 1:
-            gi = i
-            break
-        pre.append((op, av))
-    if gi is None:
-        raise AnalysisError("PLAN_COMPONENT_REGEX has no capture group 1")
-    has_digit = any((op == sre_c.IN and any(o == sre_c.CATEGORY and a == sre_c.CATEGORY_DIGIT for o, a in av)) or
-                    (op in (sre_c.MAX_REPEAT, sre_c.MIN_REPEAT) and any(o == sre_c.IN and any(oo == sre_c.CATEGORY and aa == sre_c.CATEGORY_DIGIT for oo, aa in a)
-                                                                      for o, a in av[2])) for op, av in pre)
-    has_colon = any(op == sre_c.LITERAL and av == ord(":") for op, av in pre)
-    if has_digit and has_colon:
-        r.ok({"prefix": "digit(s) ':'", "pattern": pat})
-    else:
-        r.fail(Finding("C19.regex", owner, "prefix", f"the step prefix of {pat!r} is not <digit>:"))
-    r.site(f"{FF}.PLAN_COMPONENT_REGEX [capture group]")
-    reasons = _can_match_newline(list(items[gi][1][3]))
-    # flags: DOTALL anywhere in the calls that use the pattern?
-    dotall = False
-    for f in repo.all_funcs():
-        if f.mod is m:
-            for c in L.calls_in(f.node):
-                if any(isinstance(a, ast.Name) and a.id == "PLAN_COMPONENT_REGEX" for a in c.args):
-                    if any("DOTALL" in ast.unparse(a) or ast.unparse(a).endswith(".S") for a in list(c.args) + [k.value for k in c.keywords]):
-                        dotall = True
-    if dotall and any(op == sre_c.ANY for op, _ in sre_parse.parse(pat)):
-        reasons.append("'.' with DOTALL")
-    if reasons:
-        r.fail(Finding("C19.regex", owner, "group-matches-newline", f"inside the capture group of {pat!r}: {sorted(set(reasons))} -- a following line made of "
-                       f"group characters is swallowed into the last step"), {"pattern": pat, "reasons": sorted(set(reasons))})
-    else:
-        r.ok({"capture_group_can_match_line_break": False})
-    r.site(f"{FF}.PLAN_COMPONENT_REGEX [terminator]")
-    post = items[gi + 1:]
-    term = any((op == sre_c.LITERAL and av == 10) or (op == sre_c.AT and av in (sre_c.AT_END, sre_c.AT_END_LINE, sre_c.AT_END_STRING)) or
-               (op in (sre_c.MAX_REPEAT, sre_c.MIN_REPEAT) and any(o == sre_c.LITERAL and a == 13 for o, a in av[2])) for op, av in post)
-    if term:
-        r.ok({"terminated_by": "end of line"})
-    else:
-        r.fail(Finding("C19.regex", owner, "terminator", f"the capture group of {pat!r} is not followed by a line terminator"))
+    m, v, _lists, interp = _ff_steps(repo)
+    mod = repo.module(FF)
+    pats: Dict[Tuple[str, str], Tuple[str, Optional[int]]] = {}
+    for sc in _all_scans(m, v, interp):
+        if sc.pattern is None:
+            raise AnalysisError(f"{unparse(sc.call, 60)}: pattern argument not found")
+        for t, leaf in v.strings(sc.pattern, sc.pattern_mod):
+            if t is None:
+                raise AnalysisError(f"the step pattern {unparse(leaf.node, 60)} cannot be folded to a string")
+            name = leaf.via[-1] if leaf.via else ""
+            old = pats.get((t, name))
+            fl = sc.flags if old is None or old[1] == sc.flags else None
+            pats[(t, name)] = (t, fl)
+    if not pats:
+        ok, pat = repo.const_value(mod.name, STEP_REGEX_NAME)
+        if not ok or not isinstance(pat, str):
+            raise AnalysisError(f"no finditer / findall over the log found in {FF_STATUS} and {FF}.{STEP_REGEX_NAME} cannot be folded to a string")
+        pats[(pat, STEP_REGEX_NAME)] = (pat, None)
+    for (pat, name), (_p, call_flags) in sorted(pats.items()):
+        label = f"{FF}.{name}" if name else f"{m.f.qn} (inline pattern)"
+        owner = (mod.short, name, str(mod.path)) if name else m.f
+        tree = _parse(pat)
+        flags: Optional[int] = None if call_flags is None else (call_flags | tree.state.flags)
+        dotall = None if flags is None else bool(flags & RE_DOTALL)
+        multiline = None if flags is None else bool(flags & RE_MULTILINE)
+        items = list(tree)
+        r.site(f"{label} [prefix]")
+        pre = []
+        gi = None
+        for i, (op, av) in enumerate(items):
+            if op == sre_c.SUBPATTERN and av[0] == 1:
+                gi = i
+                break
+            pre.append((op, av))
+        if gi is None:
+            if tree.state.groups - 1 >= 1:
+                raise AnalysisError(f"{label}: capture group 1 of {pat!r} is nested inside another construct; not interpreted")
+            r.fail(Finding("C19.regex", owner, "prefix", f"the step pattern {pat!r} has no capture group for the step text"))
+            continue
+        has_digit = any(_is_digit_item(op, av) for op, av in pre)
+        has_colon = any(op == sre_c.LITERAL and av == ord(":") for op, av in pre)
+        if has_digit and has_colon:
+            r.ok({"prefix": "digit(s) ':'", "pattern": pat})
+        else:
+            r.fail(Finding("C19.regex", owner, "prefix", f"the step prefix of {pat!r} is not <digit>:"))
+        r.site(f"{label} [capture group]")
+        group_items = list(items[gi][1][3])
+        has_any = "'.' with DOTALL" in _can_match_newline(group_items, True)
+        if has_any and dotall is None:
+            raise AnalysisError(f"{label}: the flags of the call that uses {pat!r} cannot be decided and the capture group contains '.'")
+        reasons = _can_match_newline(group_items, bool(dotall))
+        if reasons:
+            r.fail(Finding("C19.regex", owner, "group-matches-newline", f"inside the capture group of {pat!r}: {sorted(set(reasons))} -- a following line made of "
+                           f"group characters is swallowed into the last step"), {"pattern": pat, "reasons": sorted(set(reasons))})
+        else:
+            r.ok({"capture_group_can_match_line_break": False})
+        r.site(f"{label} [terminator]")
+        term = _terminates(items[gi + 1:], multiline)
+        if term is None:
+            raise AnalysisError(f"{label}: {pat!r} ends a step with '$' and the flags of the call cannot be decided")
+        if term:
+            r.ok({"terminated_by": "end of line"})
+        else:
+            r.fail(Finding("C19.regex", owner, "terminator", f"the capture group of {pat!r} is not followed by a line terminator"
+                           + ("" if multiline or not any(op == sre_c.AT and av == sre_c.AT_END for op, av in items[gi + 1:]) else " ('$' without MULTILINE only matches at the end of the log)")))
     r.require_sites(3)
     return r
+
+
+# ------------------------------------------------------------------------------------------------------------ C19.lower
+def _check_text(m: _Model, v: U.View, sc: U.Scan, r: RuleResult) -> None:
+    """the pattern is matched against the complete log: a slice bound that comes from str.find must have been tested"""
+    f = m.f
+    if sc.text is None or sc.extra_positional:
+        r.fail(Finding("C19.lower", f, "searched-text", f"{unparse(sc.call, 70)}: the scanned text / range is not the whole log", node=sc.call))
+        return
+    tr = m.p.trace(sc.text)
+    params = {x for x in f.params if x != f.self_name}
+    if not any(x[0].startswith("param:") and x[0][6:] in params for x in tr):
+        r.fail(Finding("C19.lower", f, "searched-text", f"{unparse(sc.call, 70)} does not scan the planner log that the function was given", node=sc.call))
+        return
+    bad = []
+    for ops, _base in v.chains(sc.text):
+        for name, _a, node in ops:
+            if name == "item":      # one piece of a split / partitioned log, one character, ...
+                bad.append(("part", node))
+            if name != "slice":
+                continue
+            for which, b in (("lower", node.slice.lower), ("upper", node.slice.upper)):
+                if b is None:
+                    continue
+                target = U.find_calls(v, b)
+                if not target:
+                    continue
+                base_atom = m.G.matcher
+                am = U.absent_matcher(v, target)
+                G2 = L.Guards(f, lambda e: base_atom(e) or am(e))
+                val2 = dict(v.valuation, absent=True)
+                uses = [x for x in ast.walk(b) if isinstance(x, (ast.Name, ast.Call)) and U.find_calls(v, x) & target
+                        and not any(isinstance(a, ast.Compare) and any(y is x for y in ast.walk(a)) for a in ast.walk(b))]
+                if any(G2.reaches_expr(val2, x) for x in uses):
+                    bad.append((which, node))
+    seen: Set[Tuple[str, int]] = set()
+    for which, node in bad:
+        if (which, id(node)) in seen:
+            continue
+        seen.add((which, id(node)))
+        if which == "part":
+            r.fail(Finding("C19.lower", f, "searched-text", f"{unparse(sc.call, 70)} scans only {unparse(node, 50)}, one part of the log", node=node))
+            continue
+        r.fail(Finding("C19.lower", f, f"unchecked-find-bound:{which}", f"{unparse(node, 60)} slices the log with a {which} bound that comes from str.find "
+                       f"and is not compared with -1 on the way: when the marker is absent the slice silently drops the end of the log", node=node))
+    if not bad:
+        r.ok({"searched_text": "the log (slices only with checked bounds)"})
+
+
+def _sink_lists(m: _Model, v: U.View) -> List[Tuple[ast.AST, List[Tuple[str, object, ast.AST]], List[str]]]:
+    """(write call, lists written, problems) for the recognised ways a list of lines is written to a file"""
+    out = []
+    f = m.f
+    pm = L.parents_of(f)
+    for c in L.calls_in(f.node):
+        if not (isinstance(c.func, ast.Attribute) and c.func.attr in ("writelines", "write", "write_text") and len(c.args) >= 1 and v.reachable(c)):
+            continue
+        if m.repo.resolve_call(f, c)[0] == "logging":
+            continue
+        arg = c.args[0]
+        if c.func.attr == "writelines":
+            out.append((c, v.lists(arg), []))
+            continue
+        # write("".join(lines)) / write_text("".join(lines))
+        joined = [leaf.node for leaf in v.alts(arg)]
+        if all(isinstance(j, ast.Call) and isinstance(j.func, ast.Attribute) and j.func.attr == "join" and len(j.args) == 1 for j in joined) and joined:
+            probs, ls = [], []
+            for j in joined:
+                seps = v.strings(j.func.value)
+                if not seps or any(t != "" for t, _ in seps):
+                    probs.append("the lines are joined with a separator")
+                ls += v.lists(j.args[0])
+            out.append((c, ls, probs))
+            continue
+        if c.func.attr != "write":
+            continue
+        # for line in lines: out.write(line)
+        cur, loop, conds = c, None, False
+        while cur in pm and not isinstance(cur, ast.FunctionDef):
+            par = pm[cur]
+            if isinstance(par, ast.If) and not getattr(par, "_inline_block", False) and isinstance(cur, ast.stmt):
+                conds = True
+            if isinstance(par, ast.For) and isinstance(cur, ast.stmt) and any(cur is s for s in par.body):
+                loop = par
+                break
+            cur = par
+        if loop is None:
+            continue
+        lp = S.Loop(loop.iter, loop.target, [], loop)
+        target, it, _enum = v.loop_var(lp)
+        cs = v.chains(arg)
+        if not (cs and all(v.bound_by(base.node, lp, target) for _ops, base in cs)):
+            continue
+        probs = []
+        if conds:
+            probs.append("a line is written only under a condition")
+        if any(ops for ops, _b in cs):
+            probs.append(f"a line is changed ({_fmt_ops(cs[0][0])}) before it is written")
+        if _escapes(loop):
+            probs.append(f"the writing loop is left / an iteration is skipped by `{_escapes(loop)}`")
+        out.append((c, v.lists(it), probs))
+    return out
+
+
+def _target_problems(m: _Model, v: U.View, call: ast.Call, param_index: int) -> List[str]:
+    """positive evidence that the lines go somewhere else than a fresh file at the expected path parameter (nothing is
+    reported when the way the file is opened is not recognised)"""
+    params = [x for x in m.f.params if x != m.f.self_name]
+    if param_index >= len(params):
+        return []
+    want = params[param_index]
+    h = call.func.value
+    exprs: List[ast.AST] = [h]
+    if isinstance(h, ast.Name):
+        at = v.node_of(h)
+        ds = v.defs_reaching(at, h.id) if at is not None else set()
+        if ds and all(isinstance(v.g.stmt[d], ast.With) for d in ds):
+            exprs = [item.context_expr for d in ds for item in v.g.stmt[d].items
+                     if item.optional_vars is not None and h.id in C.target_names(item.optional_vars)]
+    probs: List[str] = []
+    for e in exprs:
+        for ops, b in v.chains(e):
+            c = b.node
+            path = mode = None
+            if isinstance(c, ast.Call) and isinstance(c.func, ast.Name) and c.func.id == "open" and not ops and c.args:
+                path = c.args[0]
+                mode = c.args[1] if len(c.args) > 1 else next((k.value for k in c.keywords if k.arg == "mode"), None)
+                if mode is None:
+                    probs.append("the file is opened for reading")
+            elif ops and ops[0][0] == "open" and len(ops) == 1:
+                path, on = c, ops[0][2]
+                mode = on.args[0] if on.args else next((k.value for k in on.keywords if k.arg == "mode"), None)
+            elif call.func.attr == "write_text" and not ops:
+                path = c
+            if mode is not None:
+                for t, _ in v.strings(mode):
+                    if t is not None and t not in ("w", "wt", "tw"):
+                        probs.append(f"the file is opened with mode {t!r} (existing content is kept / not text)")
+            if path is not None:
+                try:
+                    roots = {x[0] for x in m.p.trace(path)}
+                except KeyError:
+                    continue
+                proots = {x for x in roots if x.startswith("param:")}
+                if proots and f"param:{want}" not in proots:
+                    probs.append(f"the lines are written to {sorted(proots)[0][6:]} instead of {want}")
+    return probs
+
+
+def _check_written(repo: Repo, spec: str, kind: str, rid: str, r: RuleResult) -> None:
+    """what parse_plan writes is the list of steps (checked when the way of writing is one of the recognised forms; an
+    unrecognised form is noted, not reported)"""
+    m = _model(repo, spec)
+    v = m.view()
+    r.site(f"{m.f.qn} [written plan]")
+    sinks = _sink_lists(m, v)
+    if not sinks:
+        r.notes.append(f"{m.f.qn}: no writelines / write-in-loop / write(''.join()) of a list found; the written file is not checked")
+        r.ok({"written": "not interpreted"}, n=0)
+        return
+    role = "written-plan"
+    for call, lists, probs in sinks:
+        seqs = [(sq, n) for k, sq, n in lists if k == "seq"]
+        opaque = [(why, n) for k, why, n in lists if k == "opaque"]
+        partial = [(why, n) for k, why, n in lists if k == "partial"]
+        if partial:
+            probs = probs + [f"{unparse(partial[0][1], 40)} is {partial[0][0]}"]
+        probs = probs + _target_problems(m, v, call, 1 if kind == "ff" else 0)
+        if opaque and not seqs and not probs:
+            r.notes.append(f"{m.f.qn}: {unparse(call, 60)} writes a value whose construction is not interpreted ({opaque[0][0]})")
+            continue
+        for sq, n in seqs:
+            st = m.steps(v, sq, kind, n)
+            probs = probs + st.problems
+        if opaque:
+            probs = probs + [f"an alternative of the written value is not the list of steps ({unparse(opaque[0][1], 40)})"]
+        if not seqs and not opaque and not probs:
+            continue   # only empty lists reach this call under this valuation
+        if probs:
+            r.fail(Finding(rid, m.f, role, f"{unparse(call, 60)} does not write exactly the extracted steps in order: {probs[0]}", node=call))
+        else:
+            r.ok({"written": unparse(call, 60)})
 
 
 def rule_lower(repo: Repo) -> RuleResult:
-    r = RuleResult("C19.lower", "every step = group(1).lower().strip() wrapped in parentheses, appended in match order", "in order, lower-cased, arguments in order")
-    f = repo.func("MetricFFParser._parse_plan_content")
-    p = L.prov(repo, f)
-    r.site(f.qn)
-    apps = [c for c in L.calls_in(f.node) if isinstance(c.func, ast.Attribute) and c.func.attr == "append"]
-    if not apps:
-        raise AnalysisError("_parse_plan_content: append of the step not found")
-    tr = p.trace(apps[0].args[0])
-    src = [x for x in tr if "call:group" in x]
-    ok = bool(src) and all("call:lower" in x and "call:strip" in x for x in src) and \
-        any(any(s.startswith("arg1:finditer") or s.startswith("arg1:findall") for s in x) and x[0] == "param:planner_output" for x in tr) and \
-        any(x[0] == "global:PLAN_COMPONENT_REGEX" or x[0].startswith("const:") and any(s.startswith("arg0:finditer") for s in x) for x in tr) and \
-        not any(any(s.startswith(("arg0:sorted", "arg0:reversed", "arg0:set")) for s in x) for x in tr)
-    g1 = [c for c in L.calls_in(f.node) if callee_name(c) == "group" and c.args and isinstance(c.args[0], ast.Constant) and c.args[0].value == 1]
-    tmpl = apps[0].args[0]
-    wrapped = isinstance(tmpl, ast.JoinedStr) and "".join(v.value for v in tmpl.values if isinstance(v, ast.Constant)).strip() in ("()",)
-    if ok and g1 and wrapped:
-        r.ok({"step": "'(' + group(1).lower().strip() + ')\\n'", "order": "match order"})
+    r = RuleResult("C19.lower", "every step = '(' + group(1).lower().strip() + ')\\n', one per match of the step pattern over the whole log, in match order; "
+                   "that list is what is returned with 'ok' and what parse_plan writes", "in order, lower-cased, arguments in order")
+    m, v, lists, interp = _ff_steps(repo)
+    f = m.f
+    r.site(f.qn + " [step text]")
+    elem_problems = [(st, p) for st in interp for p in st.problems if not st.shape_problem]
+    if elem_problems:
+        st, p = elem_problems[0]
+        r.fail(Finding("C19.lower", f, "step-text", f"an emitted step is not '(' + group(1).lower().strip() + ')\\n' for every match in match order: {p}", node=st.node))
+    elif any(st.valid for st in interp):
+        r.ok({"step": next(st.rendered for st in interp if st.valid), "with": "step = group(1).lower().strip()", "order": "match order"})
     else:
-        r.fail(Finding("C19.lower", f, "step-text", f"an emitted step is not '(' + group(1).lower().strip() + ')' in match order (lower/strip={ok}, group(1)={bool(g1)}, wrapped={wrapped})"))
-    # the pattern is matched against the complete log (a slice needs bounds that were checked)
+        r.notes.append("no list of steps interpreted; see [result]")
+        r.ok(n=0)
     r.site(f.qn + " [searched text]")
-    g = C.cfg_of(f.node)
-    dom = C.dominators(g)
-    scans = [c for c in L.calls_in(f.node) if callee_name(c) in ("finditer", "findall", "search") and len(c.args) >= 2]
-    bad_slice = None
-    for c in scans:
-        for x in p.trace(c.args[1]):
-            if x[0] == "param:planner_output" and any(s.startswith("slice:") for s in x):
-                # find the slicing statement and its bound names
-                for n in ast.walk(f.node):
-                    if isinstance(n, ast.Subscript) and isinstance(n.slice, ast.Slice):
-                        for b in (n.slice.lower, n.slice.upper):
-                            if isinstance(b, ast.Name):
-                                from_find = any(any(s in ("call:find", "call:rfind") for s in y) for y in p.trace(b))
-                                if from_find:
-                                    sn = g.node_containing(n)
-                                    checked = any(isinstance(g.stmt[d], ast.If) and any(isinstance(t, ast.Name) and t.id == b.id for t in ast.walk(g.stmt[d].test))
-                                                  for d in dom[sn]) if sn is not None else False
-                                    if not checked:
-                                        bad_slice = (n, b.id)
-    if bad_slice:
-        r.fail(Finding("C19.lower", f, f"unchecked-find-bound:{bad_slice[1]}", f"{unparse(bad_slice[0], 60)} slices the log with `{bad_slice[1]}` which comes from str.find "
-                       f"and is never compared with -1: when the marker is absent the slice silently drops the end of the log", node=bad_slice[0]))
-    else:
-        r.ok({"searched_text": "the log (slices only with checked bounds)"})
-    rets = L.func_returns(f)
+    scans = _all_scans(m, v, interp)
+    if not scans:
+        r.fail(Finding("C19.lower", f, "searched-text", "with the plan marker present no finditer / findall of the step pattern over the log is reached"))
+    for sc in scans:
+        _check_text(m, v, sc, r)
     r.site(f.qn + " [result]")
-    names = {x.value.id for x in rets if isinstance(x.value, ast.Name)}
-    lists = [x for x in rets if isinstance(x.value, ast.List) and not x.value.elts]
-    tgt = apps[0].func.value.id if isinstance(apps[0].func.value, ast.Name) else None
-    if names == {tgt} and len(names) + len(lists) == len(rets):
-        r.ok({"returns": tgt})
+    opaque = [(why, n) for k, why, n in lists if k in ("opaque", "partial")]
+    shape = [st for st in interp if st.shape_problem]
+    if opaque:
+        why, n = opaque[0]
+        r.fail(Finding("C19.lower", f, "result", f"with the plan marker present the returned actions can be {unparse(n, 50)}, which is not the list of collected steps ({why})",
+                       node=n if hasattr(n, "lineno") else None))
+    elif shape:
+        r.fail(Finding("C19.lower", f, "result", f"the returned actions are not one step per match: {shape[0].problems[-1]}", node=shape[0].node))
+    elif not interp:
+        r.fail(Finding("C19.lower", f, "result", "with the plan marker present no collected steps are returned (only empty lists)"))
     else:
-        r.fail(Finding("C19.lower", f, "result", "the collected steps are not what is returned"))
+        r.ok({"returns": "the collected steps" + (" (or a fresh empty list)" if any(k == "empty" for k, _s, _n in lists) else "")})
+    _check_written(repo, FF_WRITE, "ff", "C19.lower", r)
     r.require_sites(3)
     return r
 
 
+# ------------------------------------------------------------------------------------------------------------ C19.status
 def rule_status(repo: Repo) -> RuleResult:
     r = RuleResult("C19.status", "'ok' only under the found-plan marker; every other status carries an empty action list", "a log without a plan yields no actions")
-    f = repo.func("MetricFFParser.get_solving_status")
-    p = L.prov(repo, f)
-    g = C.cfg_of(f.node)
-
-    def matcher(e):
-        if isinstance(e, ast.Compare) and len(e.ops) == 1 and isinstance(e.comparators[0], ast.Constant) and e.comparators[0].value is None:
-            tr = p.trace(e.left)
-            if any(x[0] == "global:VALID_PLAN_FOUND_PATTERN" for x in tr):
-                return "found" if isinstance(e.ops[0], ast.IsNot) else "!found"
-        return None
-
-    G = L.Guards(f, matcher)
-    if "found" not in G.atoms_seen:
-        raise AnalysisError("get_solving_status: found-plan test not recognised")
+    try:
+        m = _ff(repo)
+    except _MarkerTestChanged as ex:
+        f = _model(repo, FF_STATUS, True).f
+        r.site(f"{f.qn} [plan marker test]")
+        r.fail(Finding("C19.status", f, "status:marker-test", f"{unparse(ex.node, 70)}: {ex.what}; a log that contains a plan after its header lines is not classified 'ok'", node=ex.node))
+        return r
+    f = m.f
     for found in (False, True):
         r.site(f"{f.qn} [plan marker {'present' if found else 'absent'}]")
-        seen = G.reach({"found": found})
-        statuses = []
-        for n in seen:
-            if g.kind[n] == "return":
-                v = g.stmt[n].value
-                if isinstance(v, ast.Tuple) and len(v.elts) == 2 and isinstance(v.elts[0], ast.Constant):
-                    empty = isinstance(v.elts[1], ast.List) and not v.elts[1].elts
-                    statuses.append((v.elts[0].value, empty))
-                else:
-                    statuses.append(("?", False))
-        if found:
-            ok = statuses == [("ok", False)]
+        v = m.view(found=found)
+        seen_pairs = []
+        bad = False
+        pairs = _result_pairs(v)
+        for _ret, st, acts in pairs:
+            if st is None:
+                seen_pairs.append(("?", "?"))
+                bad = True
+                continue
+            statuses = sorted({t if t is not None else "?" for t, _ in v.strings(st)}) or ["?"]
+            kinds = sorted({k for k, _s, _n in v.lists(acts)}) or ["opaque"]
+            carries = "empty" if kinds == ["empty"] else "actions"
+            seen_pairs.append(("|".join(statuses), carries))
+            if found:
+                bad = bad or statuses != ["ok"] or carries == "empty"
+            else:
+                bad = bad or not set(statuses) <= {"no-solution", "timeout"} or carries != "empty"
+        if not pairs:
+            bad = True
+        if not bad:
+            r.ok({"marker_found": found, "returns": sorted(set(seen_pairs))})
         else:
-            ok = bool(statuses) and all(s in ("no-solution", "timeout") and e for s, e in statuses)
-        if ok:
-            r.ok({"marker_found": found, "returns": statuses})
-        else:
-            r.fail(Finding("C19.status", f, f"status:found={found}", f"with the plan marker {'present' if found else 'absent'} the function can return {statuses}"))
+            r.fail(Finding("C19.status", f, f"status:found={found}", f"with the plan marker {'present' if found else 'absent'} the function can return "
+                           f"{sorted(set(seen_pairs))} (status, action list)"))
     r.require_sites(2)
     return r
 
 
+# ------------------------------------------------------------------------------------------------------------ C19.enhsp
 def rule_enhsp(repo: Repo) -> RuleResult:
     r = RuleResult("C19.enhsp", "ENHSP: one output line per input line, lower-cased, order kept", "exactly the plan's steps, in order, lower-cased")
-    f = repo.func("ENHSPParser.parse_plan_content")
-    p = L.prov(repo, f)
+    m = _model(repo, EN_READ)
+    f = m.f
+    v = m.view()
     r.site(f.qn)
-    apps = [c for c in L.calls_in(f.node) if isinstance(c.func, ast.Attribute) and c.func.attr == "append"]
-    ok = False
-    if apps:
-        tr = p.trace(apps[0].args[0])
-        ok = all("call:lower" in x for x in tr if "elem" in x) and any("call:readlines" in x and "elem" in x for x in tr) and \
-            not any(any(s.startswith(("arg0:sorted", "arg0:reversed", "arg0:set")) for s in x) for x in tr)
-    g = C.cfg_of(f.node)
-    loops = [n for n in ast.walk(f.node) if isinstance(n, ast.For)]
-    uncond = bool(apps) and bool(loops) and not any(isinstance(s, (ast.If, ast.Continue, ast.Break)) for s in C.stmts_in(loops[0].body))
-    if ok and uncond:
-        r.ok({"per_line": "append(line.lower())"})
+    lists: List[Tuple[str, object, ast.AST]] = []
+    rets = v.returns()
+    for ret in rets:
+        if ret.value is None:
+            lists.append(("opaque", "nothing is returned", ret))
+        else:
+            lists += v.lists(ret.value)
+    interp = [m.steps(v, sq, "enhsp", n) for k, sq, n in lists if k == "seq"]
+    problems = [p for st in interp for p in st.problems]
+    opaque = [(why, n) for k, why, n in lists if k in ("opaque", "partial")]
+    if problems or opaque or not interp or any(k == "empty" for k, _s, _n in lists) or not all(st.valid for st in interp):
+        why = problems[0] if problems else (f"{unparse(opaque[0][1], 50)} is returned ({opaque[0][0]})" if opaque else
+                                            "an empty list is returned whatever the file contains" if lists else "nothing is returned")
+        r.fail(Finding("C19.enhsp", f, "per-line", f"the ENHSP reader does not emit exactly one lower-cased line per input line in order: {why}"))
     else:
-        r.fail(Finding("C19.enhsp", f, "per-line", "the ENHSP reader does not emit exactly one lower-cased line per input line in order"))
+        r.ok({"per_line": interp[0].rendered, "with": "line = <line of the input file>.lower()"})
+    _check_written(repo, EN_WRITE, "enhsp", "C19.enhsp", r)
     r.require_sites(1)
     return r
 
 
-def rule_cache(repo: Repo, rid: str = "C19.cache", module_filter=None) -> RuleResult:
+# ------------------------------------------------------------------------------------------------------------ C19.cache
+CACHE_DECORATORS = {("functools", "lru_cache"), ("functools", "cache"), ("functools", "cached_property"), ("cachetools", "cached"),
+                    ("cachetools", "cachedmethod"), ("cachetools.func", "lru_cache"), ("cachetools.func", "ttl_cache")}
+
+
+def _caching_decorator(repo: Repo, f: FuncInfo, d: ast.AST) -> Optional[str]:
+    """the decorator (with or without arguments, through import aliases) memoises the function"""
+    txt = ast.unparse(d)
+    base = d.func if isinstance(d, ast.Call) else d
+    if isinstance(base, ast.Name):
+        r = repo.lookup(f.mod.name, base.id)
+        if r and r[0] == "external" and isinstance(r[1], tuple) and tuple(r[1]) in CACHE_DECORATORS:
+            return txt
+        if base.id == "cache":
+            return txt
+    elif isinstance(base, ast.Attribute) and isinstance(base.value, ast.Name):
+        r = repo.lookup(f.mod.name, base.value.id)
+        modname = r[1] if r and r[0] in ("module", "external") and isinstance(r[1], str) else None
+        if modname and (modname, base.attr) in CACHE_DECORATORS:
+            return txt
+    if any(k in txt for k in ("lru_cache", "functools.cache", "cached_property")):
+        return txt
+    return None
+
+
+READ_CALLS = ("open", "read_text", "read_bytes", "readlines", "read")
+DICT_CTORS = ("dict", "OrderedDict", "defaultdict", "WeakValueDictionary")
+
+
+def _shared_dict(repo: Repo, f: FuncInfo, e: ast.AST, local: Set[str]) -> Optional[str]:
+    """the expression names a dict that outlives the call: a module-level `NAME = {}` or a class-level `ATTR = {}` reached through
+    self / cls / the class name"""
+    def is_dict(v: Optional[ast.AST]) -> bool:
+        return isinstance(v, ast.Dict) or (isinstance(v, ast.Call) and callee_name(v) in DICT_CTORS)
+
+    if isinstance(e, ast.Name) and e.id not in local:
+        r = repo.lookup(f.mod.name, e.id)
+        if r and r[0] == "const" and is_dict(r[1]):
+            return e.id
+    if isinstance(e, ast.Attribute) and isinstance(e.value, ast.Name) and f.cls and f.cls in repo.classes and \
+            (e.value.id in (f.self_name, "cls", f.cls) or e.value.id in repo.classes):
+        cname = e.value.id if e.value.id in repo.classes else f.cls
+        for c in repo.mro(cname):
+            for b in repo.classes[c].node.body:
+                tg = b.targets if isinstance(b, ast.Assign) else [b.target] if isinstance(b, ast.AnnAssign) and b.value is not None else []
+                if any(isinstance(t, ast.Name) and t.id == e.attr for t in tg) and is_dict(b.value):
+                    return f"{c}.{e.attr}"
+    return None
+
+
+def _manual_memo(repo: Repo, f: FuncInfo) -> Optional[Tuple[str, ast.AST]]:
+    """hand-written memoisation: the function looks a value up in a shared dict and stores into the same dict"""
+    local = set(f.params) | {n.id for n in ast.walk(f.node) if isinstance(n, ast.Name) and isinstance(n.ctx, ast.Store)}
+    for n in ast.walk(f.node):
+        if isinstance(n, ast.Global):
+            local -= set(n.names)
+    stores: Dict[str, ast.AST] = {}
+    loads: Dict[str, ast.AST] = {}
+    for n in ast.walk(f.node):
+        if isinstance(n, ast.Subscript):
+            d = _shared_dict(repo, f, n.value, local)
+            if d:
+                (stores if isinstance(n.ctx, ast.Store) else loads).setdefault(d, n)
+        elif isinstance(n, ast.Call) and isinstance(n.func, ast.Attribute) and n.func.attr in ("setdefault", "update", "get", "pop"):
+            d = _shared_dict(repo, f, n.func.value, local)
+            if d:
+                (loads if n.func.attr in ("get", "pop") else stores).setdefault(d, n)
+                if n.func.attr == "setdefault":
+                    loads.setdefault(d, n)
+        elif isinstance(n, ast.Compare) and len(n.ops) == 1 and isinstance(n.ops[0], (ast.In, ast.NotIn)):
+            d = _shared_dict(repo, f, n.comparators[0], local)
+            if d:
+                loads.setdefault(d, n)
+    for d in sorted(set(stores) & set(loads)):
+        return d, stores[d]
+    return None
+
+
+def rule_cache(repo: Repo, rid: str = "C19.cache", module_filter=None, manual: bool = False) -> RuleResult:
     """memoisation decorators keep hidden process-wide state; on a function that reads a file (or takes mutable objects) the
-    cached answer goes stale"""
+    cached answer goes stale.  manual=True: hand-written memoisation through a module- / class-level dict is reported as well"""
     r = RuleResult(rid, "no memoising decorator (lru_cache / cache) on a function that reads external state or receives mutable objects",
                    "repeating a call returns the result for the CURRENT log / domain, not a remembered one")
     n = 0
@@ -258,12 +953,17 @@ def rule_cache(repo: Repo, rid: str = "C19.cache", module_filter=None) -> RuleRe
         if module_filter and not module_filter(f):
             continue
         n += 1
-        decos = [ast.unparse(d) for d in f.node.decorator_list]
-        caching = [d for d in decos if any(k in d for k in ("lru_cache", "functools.cache", "cached_property")) or d in ("cache",)]
+        caching = [c for c in (_caching_decorator(repo, f, d) for d in f.node.decorator_list) if c]
+        if not caching and manual:
+            mm = _manual_memo(repo, f)
+            if mm is not None and L.calls_reaching(repo, f, READ_CALLS):
+                r.site(L.site(f, None, "hand-written memoisation"))
+                r.fail(Finding(rid, f, "cached-stale", f"{f.qn} remembers its result in the shared dict {mm[0]} although it depends on a file that may be "
+                               f"rewritten: a later call for the same key returns the old result", node=mm[1]))
         if not caching:
             continue
         r.site(L.site(f, None, "cached function"))
-        reads = [c for c in L.calls_in(f.node) if callee_name(c) in ("open", "read_text", "read_bytes", "readlines", "read")]
+        reads = [c for c in L.calls_in(f.node) if callee_name(c) in READ_CALLS]
         mutable_params = [a for a in f.params if a != f.self_name and (repo.ann_to_type(f.annotations.get(a), f.mod.name) or ("?",))[0] in ("cls", "dict", "list", "set", "union")]
         if reads or mutable_params or f.is_method:
             r.fail(Finding(rid, f, "cached-stale", f"@{caching[0]} on {f.qn}: the answer is remembered per argument value although it depends on "
@@ -278,4 +978,4 @@ def rule_cache(repo: Repo, rid: str = "C19.cache", module_filter=None) -> RuleRe
 
 def rules(repo: Repo, tier: str) -> List[RuleResult]:
     return [rule_regex(repo), rule_lower(repo), rule_status(repo), rule_enhsp(repo),
-            rule_cache(repo, "C19.cache", lambda f: "output_parser" in f.mod.short)]
+            rule_cache(repo, "C19.cache", lambda f: "output_parser" in f.mod.short, manual=True)]
